@@ -47,7 +47,8 @@ COMPONENTS = {
     "stub_or_harness": ["os.walk permuter", "open()/makedirs() fault wrappers", "crash = os._exit in the child", "spec generator"],
 }
 FAULT_KINDS = ["oserror_open", "oserror_read", "oserror_mkdir", "torn", "crash", "crash_before", "files_lost_after_crash",
-               "hash_seed", "walk_permutation", "creation_order", "prepopulated_output"]
+               "hash_seed", "walk_permutation", "creation_order", "prepopulated_output", "relative_paths",
+               "unrelated_files_in_spec_tree"]
 PROBES = ["walk_order_differs_from_sorted", "fault_on_first_write", "fault_on_last_write", "retry_on_same_instance",
           "torn_init_file", "restart_after_crash", "acronym_or_digit_type_name", "import_check", "second_run_same_instance"]
 SHRINK_KEYS = []
@@ -65,7 +66,7 @@ def generate(streams, tier):
         "walk_seeds": [prng.randrange(1 << 30) for _ in range(2 if tier == "quick" else 4)],
         "creation_seed": prng.randrange(1 << 30),
         "fault_seed": prng.randrange(1 << 30),
-        "configs": ["again", "hash", "walk", "creation", "repeat", "prepop_self", "prepop_other", "prepop_other_noclean",
+        "configs": ["again", "relpath", "noise", "hash", "walk", "creation", "repeat", "prepop_self", "prepop_other", "prepop_other_noclean",
                     "transient", "crash", "import"],
     }
 
@@ -171,6 +172,31 @@ def run_configs(ctx):
         rs = ctx.child([{"op": "new", "xml": xml}, {"op": "generate", "out": o}, {"op": "digest", "dir": o}], "0")
         key("again")
         if not ctx.judge("identical-rerun", rs[1], rs[2]["files"]):
+            return False
+    # ---- relative input/output paths from another working directory -----------------------------------
+    if "relpath" in configs:
+        o = ctx.path("rel_out")
+        rs = ctx.child([{"op": "rmtree", "dir": o}, {"op": "chdir", "dir": ctx.base}, {"op": "new", "xml": "xml"},
+                        {"op": "generate", "out": "rel_out"}, {"op": "digest", "dir": o}], "0")
+        res.count("fault.relative_paths")
+        key("relpath")
+        if not ctx.judge("relative-paths", rs[3], rs[4]["files"]):
+            return False
+    # ---- unrelated files and directories next to the spec files ---------------------------------------
+    if "noise" in configs:
+        xmln = ctx.write_xml(tree, "xml_noise")
+        for rel, text in (("README.md", "# notes\n"), ("net/notes.txt", "x"), ("extra/readme.xml", "<protocol/>"),
+                          ("map/protocol.xml.bak", "<broken"), (".hidden/protocol.txt", "y"), ("net/client/Protocol.XML", "<broken")):
+            pth = os.path.join(xmln, rel)
+            os.makedirs(os.path.dirname(pth), exist_ok=True)
+            with open(pth, "w") as f:
+                f.write(text)
+        o = ctx.path("noise_out")
+        rs = ctx.child([{"op": "rmtree", "dir": o}, {"op": "new", "xml": xmln}, {"op": "generate", "out": o},
+                        {"op": "digest", "dir": o}], "0")
+        res.count("fault.unrelated_files_in_spec_tree")
+        key("noise")
+        if not ctx.judge("unrelated-files", rs[2], rs[3]["files"]):
             return False
     # ---- hash seeds ------------------------------------------------------------------------------
     if "hash" in configs:
@@ -356,7 +382,7 @@ def shrink(plan, still_fails, budget):
         return plan
     config = res.violation.get("config", "")
     best = plan
-    mapping = {"identical-rerun": "again", "hash-seed": "hash", "walk-order": "walk", "creation-order": "creation", "second-run-same-instance": "repeat",
+    mapping = {"identical-rerun": "again", "relative-paths": "relpath", "unrelated-files": "noise", "hash-seed": "hash", "walk-order": "walk", "creation-order": "creation", "second-run-same-instance": "repeat",
                "third-run-same-directory": "repeat", "prepopulated-own-output": "prepop_self",
                "prepopulated-other-tree": "prepop_other_noclean", "clean-then-generate-over-other-tree": "prepop_other",
                "import": "import", "io-error": "transient", "restart-after-crash": "crash", "protocol.py": "prepop_other"}
